@@ -10,6 +10,13 @@ Local Open Scope Z_scope.
 Definition partitionb (s e : Z) (l : list (Z * Z)) : bool :=
   if e <=? s then match l with [] => true | _ => false end else contiguousb s l e.
 
+(* the checks transmit the implementation's invocation list run-length encoded (lossless): a run (a, len, n) stands for
+   the n invocations [a + i*len, a + (i+1)*len), i < n *)
+Fixpoint run_chunks (a len : Z) (n : nat) : list (Z * Z) :=
+  match n with O => [] | S n' => (a, a + len) :: run_chunks (a + len) len n' end.
+Definition expand_runs (rs : list (Z * Z * Z)) : list (Z * Z) :=
+  flat_map (fun r => let '(a, len, n) := r in run_chunks a len (Z.to_nat n)) rs.
+
 (* ---- domains of the known findings (functions of the configuration only) ---- *)
 
 (* adaptive-chunksize-narrowing: StripeState::chunkSize is IntegerT; the size_type chunk size does not fit *)
@@ -36,8 +43,9 @@ Definition c12_fail_budget : Z := 2 ^ 20.
    0 = equals the model's plan and is a partition; 1 = partition but differs from the plan;
    2 = not a partition (outside every known-finding domain); 11 / 12 = not a partition, inside the
    cursor-wrap / chunk-size-narrowing domain *)
-Definition judge_c12 (x : pfcfg * Z * bool * list (Z * Z)) : Z :=
-  let '(cfg, l3, overrun, impl) := x in
+Definition judge_c12 (x : pfcfg * Z * bool * list (Z * Z * Z)) : Z :=
+  let '(cfg, l3, overrun, runs) := x in
+  let impl := expand_runs runs in
   if overrun || negb (partitionb (pf_s cfg) (pf_e cfg) impl) then
     if c12_narrow_domain cfg then 12
     else if c12_wrap_domain c12_fail_budget cfg then 11
@@ -46,6 +54,20 @@ Definition judge_c12 (x : pfcfg * Z * bool * list (Z * Z)) : Z :=
        | Some m => if zpairs_eqb m impl then 0 else 1
        | None => 1
        end.
+
+(* flat transmission format (fast to type-check): kn s e chunk N maxThreads minItems gran wait l3 overrun a1 len1 n1 a2 len2 n2 ... *)
+Fixpoint decode_runs (fuel : nat) (l : list Z) : list (Z * Z * Z) :=
+  match fuel, l with
+  | S f, a :: len :: n :: r => (a, len, n) :: decode_runs f r
+  | _, _ => []
+  end.
+Definition decode_case (l : list Z) : pfcfg * Z * bool * list (Z * Z * Z) :=
+  match l with
+  | kn :: s :: e :: chunk :: N :: maxT :: minItems :: g :: wait :: l3 :: ovr :: r =>
+      (PF (Z.to_nat kn) s e chunk N maxT minItems g (negb (wait =? 0)), l3, negb (ovr =? 0), decode_runs (length r) r)
+  | _ => (PF 0 0 0 0 0 0 0 0 true, 0, true, [])
+  end.
+Definition judge_c12_flat (l : list Z) : Z := judge_c12 (decode_case l).
 
 (* what the model predicts, for the samples shown in the evidence *)
 Definition describe_c12 (x : pfcfg * Z) : Z * Z :=
